@@ -72,10 +72,13 @@ fn main() {
 
     if let Some(sub_build) = args.subcommand_matches("build") {
         match build(sub_build) {
-            Ok(_) => {}
-            Err(e) => println!("{}", e),
+            Ok(true) => exit(0),
+            Ok(false) => exit(1),
+            Err(e) => {
+                println!("{}", e);
+                exit(1);
+            }
         };
-        exit(1);
     }
 
     let mut bob = String::new();
@@ -179,7 +182,8 @@ where
 
 // Batch convert files to svg
 // use svgbob build -i inputdir/*.bob -o outdir/
-fn build(args: &ArgMatches) -> Result<(), Box<dyn Error>> {
+// returns whether all the matching files were converted
+fn build(args: &ArgMatches) -> Result<bool, Box<dyn Error>> {
     let files_pattern = args.value_of("input").unwrap_or("*.bob");
     let outdir = args.value_of("outdir").unwrap_or("");
     let input_path = Path::new(files_pattern);
@@ -213,6 +217,7 @@ fn build(args: &ArgMatches) -> Result<(), Box<dyn Error>> {
         fs::create_dir_all(out_path.clone())?;
     }
 
+    let mut all_converted = true;
     let paths = fs::read_dir(input_dir).unwrap();
     for path in paths {
         let tmp_path = path.unwrap().path();
@@ -230,6 +235,7 @@ fn build(args: &ArgMatches) -> Result<(), Box<dyn Error>> {
                 match convert_file(tmp_path.clone(), tmp) {
                     Ok(_) => {}
                     Err(e) => {
+                        all_converted = false;
                         println!("{}", e);
                     }
                 }
@@ -237,7 +243,7 @@ fn build(args: &ArgMatches) -> Result<(), Box<dyn Error>> {
         }
     }
 
-    Ok(())
+    Ok(all_converted)
 }
 
 fn convert_file(input: PathBuf, output: PathBuf) -> Result<(), Box<dyn Error>> {
